@@ -1,5 +1,6 @@
 import Properties.C10
 import Proofs.MsgLayer.AckBudget
+import Proofs.MsgLayer.AckTimer
 /-!
 # C10, trace level — acknowledgements are paid for by confirmable messages
 
@@ -22,6 +23,10 @@ honours an explicitly set type, so such a message would go out as an ACK under a
 without any confirmable message having been received; the example after `handle_Bud` in
 `AckBudget.lean` and the one below show the budget failing for it.  aiocoap's own request and
 response paths never set these types, and the correspondence harness never generates them.
+
+The complementary half (`C10_ack_by_deadline`, from `Proofs/MsgLayer/AckTimer.lean`): a pending
+opportunity is acknowledged by its own empty-ACK timer at the latest, at `fireAt`, when the event
+loop (`advance`) runs the due timers; this needs no assumption on the application.
 -/
 namespace Aiocoap.MsgLayer
 
@@ -89,6 +94,34 @@ theorem C10_ack_at_most_once (cfg : Cfg) (mid token : Nat) (drawFn : Nat → Nat
     ackCount R M (run (init cfg mid token drawFn) es).2 ≤ 1 :=
   h1 ▸ C10_ack_budget cfg mid token drawFn es hok R M
 
+-- the complementary half: the opportunity's deadline -----------------------------------------------
+
+/-- **C10 (one opportunity per request key).** In every reachable state there is at most one
+pending piggy-back opportunity per (remote, token): a repeated request with the same token
+replaces the older opportunity. -/
+theorem C10_opportunity_unique (cfg : Cfg) (mid token : Nat) (drawFn : Nat → Nat) (es : List TEv)
+    (p q : Piggy) (hp : p ∈ (run (init cfg mid token drawFn) es).1.piggy)
+    (hq : q ∈ (run (init cfg mid token drawFn) es).1.piggy)
+    (hr : p.remote = q.remote) (ht : p.token = q.token) : p = q :=
+  PInv_unique (run_PInv (init_QInv cfg mid token drawFn) (init_PInv cfg mid token drawFn) es) hp hq hr ht
+
+/-- **C10 (acknowledged by the deadline).** In every reachable state `s`, for every pending
+opportunity `p` (a confirmable request from `p.remote` with message ID `p.mid` not yet
+acknowledged): when the event loop runs the timers due before `bound > p.fireAt`
+(`advance fuel s bound`, earliest first, whatever other timers are pending or get re-armed in
+between) and is not cut short by its fuel (it stopped because no timer due before `bound` was
+left), then the empty ACK for `p` is among the outputs: sent at `p.fireAt`
+(= arrival + `EMPTY_ACK_DELAY`) to `p.remote` under `p.mid`.  Together with
+`C10_ack_at_most_once`: exactly once. -/
+theorem C10_ack_by_deadline (cfg : Cfg) (mid token : Nat) (drawFn : Nat → Nat) (es : List TEv)
+    (p : Piggy) (fuel bound : Nat)
+    (hp : p ∈ (run (init cfg mid token drawFn) es).1.piggy) (hb : p.fireAt < bound)
+    (hfuel : (advance fuel (run (init cfg mid token drawFn) es).1 bound).2.2.length < fuel) :
+    Out.send p.fireAt p.remote (bare .ack p.mid) ∈
+      (advance fuel (run (init cfg mid token drawFn) es).1 bound).2.1 :=
+  advance_fires fuel _ bound p
+    (run_PInv (init_QInv cfg mid token drawFn) (init_PInv cfg mid token drawFn) es) hp hb hfuel
+
 -- non-vacuity -------------------------------------------------------------------------------
 
 def c10t0 : State := init c10Cfg 500 0 (fun _ => 20)
@@ -131,6 +164,13 @@ example : (∀ e ∈ c10NonRun, AppOk e.ev) ∧ conRecvs 1 74 c10NonRun = 0 ∧ 
 /-- the theorems apply to these runs (hypotheses discharged by evaluation) -/
 example : ackCount 1 71 (run c10t0 c10OnceRun).2 ≤ 1 :=
   C10_ack_at_most_once c10Cfg 500 0 (fun _ => 20) c10OnceRun (by decide) 1 71 (by decide)
+
+/-- a CON request (id 71, arrived at 5) is pending; the event loop runs up to 100 with fuel 10:
+one timer fires (the fuel is not exhausted), the empty ACK goes out at 5 + 10 -/
+example :
+    let s := (run c10t0 [⟨5, .recv 1 false (c10Req .con 71)⟩]).1
+    s.piggy = [⟨1, [1], 71, 15⟩] ∧ (advance 10 s 100).2.2.length = 1 ∧
+    sendsOf (advance 10 s 100).2.1 = [(15, 1, bare .ack 71)] := by decide
 
 /-- the excluded input: a request *submitted with type ACK* goes out as an ACK although nothing
 confirmable was ever received — without `AppOk` the budget theorem would be false -/
